@@ -8,6 +8,19 @@ from ..expression import ast as sugar
 from . import ast as desugar
 
 
+def in_every_term(self: sugar.Expression, index: str) -> bool:
+    """Whether every additive term of the expanded expression mentions the index."""
+    match self:
+        case sugar.Add() | sugar.Subtract():
+            return in_every_term(self.left, index) and in_every_term(self.right, index)
+        case sugar.Multiply():
+            return in_every_term(self.left, index) or in_every_term(self.right, index)
+        case sugar.Tensor():
+            return index in self.indexes
+        case _:
+            return False
+
+
 @singledispatch
 def desugar_expression(
     self: sugar.Expression, contract_indexes: set[str], ids: Iterator[int]
@@ -46,7 +59,13 @@ def desugar_add(
     left_indexes = set(self.left.index_participants().keys()).intersection(contract_indexes)
     right_indexes = set(self.right.index_participants().keys()).intersection(contract_indexes)
 
-    intersection_indexes = left_indexes.intersection(right_indexes)
+    # A contraction can only be hoisted above a sum if every additive term below it mentions the
+    # index. Otherwise, a term lacking the index would be summed once per value of the index.
+    intersection_indexes = {
+        index
+        for index in left_indexes.intersection(right_indexes)
+        if in_every_term(self.left, index) and in_every_term(self.right, index)
+    }
 
     output = desugar.Add(
         desugar_expression(self.left, left_indexes - intersection_indexes, ids),
@@ -66,7 +85,13 @@ def desugar_subtract(
     left_indexes = set(self.left.index_participants().keys()).intersection(contract_indexes)
     right_indexes = set(self.right.index_participants().keys()).intersection(contract_indexes)
 
-    intersection_indexes = left_indexes.intersection(right_indexes)
+    # A contraction can only be hoisted above a sum if every additive term below it mentions the
+    # index. Otherwise, a term lacking the index would be summed once per value of the index.
+    intersection_indexes = {
+        index
+        for index in left_indexes.intersection(right_indexes)
+        if in_every_term(self.left, index) and in_every_term(self.right, index)
+    }
 
     output = desugar.Add(
         desugar_expression(self.left, left_indexes - intersection_indexes, ids),
